@@ -16,6 +16,9 @@ type MOp struct {
 	K    string `json:"k"`
 	Key  int    `json:"key"`
 	Stop int    `json:"stop,omitempty"` // range: callback returns false at this call (0 = never)
+	// M = 1: the call goes to a SECOND, independent Map (initially empty) used in the same run: state must never
+	// leak between two Map values (package-level caches, shared scratch space, a lock common to all maps)
+	M int `json:"m,omitempty"`
 }
 
 // Rec is one executed call with its stamps and results.
